@@ -32,6 +32,8 @@
     sent to a well-formed tensor of the type the functor assigns to it (`BoxOK`), discharged by
     `boxOK_of_genuine`: generators and daggered generators, swaps, nested cups and caps of
     every dimension tuple (`Proofs/TensorCups.lean`).
+  * `functor_eval_eq_layers_of_expr`: the same for any diagram produced by the op language
+    (`Expr.eval`, well-typed by C01) whose boxes pass the Boolean test the driver reports.
   * `call_ofBox`: a box seen as a one-box diagram evaluates to `F(box)` (the `Box` branch of
     `__call__`, tensor.py:356-361, agrees with the loop).
   * `functor_eval_type`, `functor_ty_monoidal`, `obj_to_dim_ignores_z`.
@@ -82,6 +84,14 @@ theorem functor_eval_eq_layers (F : TFunctor R) (d : Diagram) (hwf : d.WF)
     F.call d = F.layerwise d :=
   call_eq_layerwise F d hwf (fun b hb => (hgen b hb).1)
     (fun b hb => TFunctor.boxOK_of_genuine F b (hgen b hb))
+
+/-- The form the correspondence check exercises: a diagram built by the op language (well-typed
+    by C01's `Expr.eval_wf`) whose special boxes pass the driver's Boolean test `fgenuine`. -/
+theorem functor_eval_eq_layers_of_expr (F : TFunctor R) (e : Expr) (d : Diagram)
+    (h : e.eval = .ok d) (hg : d.boxes.all TFunctor.genuineB = true) :
+    F.call d = F.layerwise d :=
+  functor_eval_eq_layers F d (Expr.eval_wf e h)
+    (fun b hb => genuine_of_genuineB b (List.all_eq_true.1 hg b hb))
 
 /-- The `Box` branch of `__call__` agrees with the loop on the one-box diagram. -/
 theorem call_ofBox (F : TFunctor R) (b : Box) (hk : b.kind ≠ .swap) (hb : BoxOK F b) :
